@@ -32,14 +32,17 @@ type CrashCase struct {
 	Family string `json:"family,omitempty"`
 }
 
-var hostileToks = []string{"0x7fffffffffffffff", "99999999999999999999", "-9223372036854775808", "0xffffffffffffffff", "{{.", "{{.x}}", "}}", "$", "$$", "..", ".loop", "a$b", "$x", "x.", "@f", "?x", "[", "]", "(", ")", ",", ":", "+", "-", "*", "/", "%", "\"", "'", "\"unterminated", "0x", "0", "1", "256", "-1", "EQU", "GLOBAL", "EXTERN", "BYTE", "WORD", "DWORD", "SHORT", "NEAR", "FAR", "PTR", "ORG", "RESB", "ALIGNB", "TIMES", "END", "DB", "DW", "DD", "INT", "MOV", "JMP", "CALL", "LGDT", "PUSH", "IMUL", "IN", "OUT", "AX", "EAX", "AL", "CR0", "DS", "ES:", "[BX]", "[EAX*9]", "[ESP*2]", "[BX+BP]", "[BITS", "32]", "[FORMAT", "\"WCOFF\"]", "[FILE", "label:", "x:", "\t", ";", "#"}
+var hostileToks = []string{"0x7fffffffffffffff", "99999999999999999999", "-9223372036854775808", "0xffffffffffffffff", "0x100000000", "4294967296", "0x80000000", "65536", "{{.", "{{.x}}", "}}", "$", "$$", "..", ".loop", "a$b", "$x", "x.", "@f", "?x", "[", "]", "(", ")", ",", ":", "+", "-", "*", "/", "%", "\"", "'", "\"unterminated", "0x", "0", "1", "256", "-1", "EQU", "GLOBAL", "EXTERN", "BYTE", "WORD", "DWORD", "SHORT", "NEAR", "FAR", "PTR", "ORG", "RESB", "ALIGNB", "TIMES", "END", "DB", "DW", "DD", "INT", "MOV", "JMP", "CALL", "LGDT", "PUSH", "IMUL", "IN", "OUT", "AX", "EAX", "AL", "CR0", "DS", "ES:", "[BX]", "[EAX*9]", "[ESP*2]", "[BX+BP]", "[BITS", "32]", "[FORMAT", "\"WCOFF\"]", "[FILE", "label:", "x:", "\t", ";", "#"}
 
 // (no word boundary after the keyword: gosk reads "RESB2000000000" as RESB 2000000000)
+var hostileNumbers = []string{"0", "-1", "255", "256", "65535", "65536", "0x7fffffff", "0x80000000", "2147483648", "-2147483649", "0xffffffff", "0x100000000", "4294967296", "0x200000000", "0xFFFFFFFFFF",
+	"0x7fffffffffffffff", "0x8000000000000000", "0xffffffffffffffff", "18446744073709551616", "99999999999999999999", "-9223372036854775808", "-9223372036854775809", "0x", "0x1g", "1e9", "0b101", "017", "1_000", "'A'", "''"}
+
 var outOfRangeReserve = regexp.MustCompile(`(?i)(RESB|RESW|RESD|ALIGNB|TIMES)[^\n]*?(0x[0-9a-f]{7,}|[0-9]{8,})`)
 
-// a RESB whose only operand is one literal beyond 2^31-1: gosk must refuse it (the location counter
-// has 32 bits), so it costs nothing to run
-var plainHugeReserve = regexp.MustCompile(`(?i)^\s*(?:[A-Za-z_][A-Za-z0-9_]*:)?\s*RESB\s*(0x[0-9a-f]+|[0-9]+)\s*(?:[;#].*)?$`)
+// a RESB or ALIGNB whose only operand is one literal beyond 2^31-1: gosk must refuse it (the location
+// counter has 32 bits), so it costs nothing to run
+var plainHugeReserve = regexp.MustCompile(`(?i)^\s*(?:[A-Za-z_][A-Za-z0-9_]*:)?\s*(?:RESB|ALIGNB)\s*(0x[0-9a-f]+|[0-9]+)\s*(?:[;#].*)?$`)
 
 // asksForHugeOutput: some line reserves (or may reserve) more than 16 MiB of output that gosk would really produce.
 func asksForHugeOutput(src string) bool {
@@ -463,17 +466,23 @@ func scaledInput(family string, n int) string {
 			fmt.Fprintf(&sb, "A%d\tEQU\tA%d+A%d\n", i, i-1, i-1)
 		}
 		fmt.Fprintf(&sb, "\tMOV AX,A%d\n", depth)
+	case "parensname":
+		// parentheses nested around something that does not fold to a number (a label, an undefined name, an
+		// EQU of a label), in several operand positions; depth 4 .. 40 .. 400
+		depth := n / 250
+		o, c := strings.Repeat("(", depth), strings.Repeat(")", depth)
+		fmt.Fprintf(&sb, "l0:\nE0\tEQU\tl0\n\tMOV AX,%sl0%s\n\tDW %snosuch%s\n\tMOV CX,[%sl0%s]\n\tMOV DX,%sE0%s\n\tJMP %sl0%s\nE1\tEQU\t%sl1%s\nl1:\n\tDD E1\n", o, c, o, c, o, c, o, c, o, c, o, c)
 	case "longline":
 		sb.WriteString("\tMOV AX," + strings.Repeat("1+", n/2) + "1 ; " + strings.Repeat("x", n) + "\n")
 	}
 	return sb.String()
 }
 
-var scaleFamilies = []string{"statements", "dblist", "parens", "sum", "labels", "equs", "branches", "longline", "equdouble"}
+var scaleFamilies = []string{"statements", "dblist", "parens", "sum", "labels", "equs", "branches", "longline", "equdouble", "parensname"}
 
 var propC13 = &Prop[CrashCase]{
 	ID:     "C13",
-	Rule:   "(a) token- and line-level mutants (delete/duplicate/replace/insert/swap tokens, delete/duplicate/join lines, splice operands; replacement tokens from the program itself or a hostile pool: 64-bit-overflowing numbers, '{{.', '$', unbalanced brackets and quotes, keywords, bad addressing) of generated programs and corpus sources; identifiers of unusual shape (leading/trailing dots, $, @, ?, template braces, 300 characters, register and keyword look-alikes) as labels, branch targets, EQU/GLOBAL/EXTERN names and operands; (b) every grammar mnemonic with 0..4 operands of every kind; (c) scaled inputs (long statement lists, DB lists, nested parentheses, sums, many labels, EQU chains, widening branches, long lines) - size 1e3..1e4 tokens in-process, and CPU-time growth measured on the binary; oracle: no panic / runtime fatal error / hang (in-process finding confirmed through the real binary), growth exponent <= 2.2; non-trivial = the input parses (reaches pass 1), counted apart from parse-rejected inputs; distinct by input text",
+	Rule:   "(a) token- and line-level mutants (delete/duplicate/replace/insert/swap tokens, delete/duplicate/join lines, splice operands; replacement tokens from the program itself or a hostile pool: 64-bit-overflowing numbers, '{{.', '$', unbalanced brackets and quotes, keywords, bad addressing) of generated programs and corpus sources; identifiers of unusual shape (leading/trailing dots, $, @, ?, template braces, 300 characters, register and keyword look-alikes) as labels, branch targets, EQU/GLOBAL/EXTERN names and operands; every statement shape that takes a number x numbers around every power of two up to 2^64; (b) every grammar mnemonic with 0..4 operands of every kind; (c) scaled inputs (long statement lists, DB lists, nested parentheses, sums, many labels, EQU chains, widening branches, long lines) - size 1e3..1e4 tokens in-process, and CPU-time growth measured on the binary; oracle: no panic / runtime fatal error / hang (in-process finding confirmed through the real binary), growth exponent <= 2.2; non-trivial = the input parses (reaches pass 1), counted apart from parse-rejected inputs; distinct by input text",
 	Assume: []string{"asm.AssembleNoExit restates frontend.Exec without os.Exit; every crash is re-run through the gosk binary before it is reported"},
 	Gen: func(t *rapid.T) CrashCase {
 		loadCorpus()
@@ -579,6 +588,17 @@ var propC13 = &Prop[CrashCase]{
 					c := mkShape([]int{0, 32}[(mi+rpt)%2], mn, kinds, mi+rpt)
 					yield(CrashCase{Src: c.source(true), Kind: "arity"})
 				}
+			}
+		}
+		// (b2) every statement shape that takes a number x numbers around every power-of-two boundary up to 2^64
+		for _, tmpl := range []string{"RESB %s", "ALIGNB %s", "ORG %s", "DB %s", "DW %s", "DD %s", "INT %s", "RET %s", "SHL AX,%s", "IN AL,%s", "OUT %s,AL", "PUSH %s", "JMP %s", "CALL %s",
+			"MOV AX,%s", "MOV EAX,[%s]", "MOV AX,[BX+%s]", "ADD BYTE [SI],%s", "IMUL CX,%s", "JMP %s:0", "JMP 8:%s", "X EQU %s\n\tDW X", "RESB %s-$", "DB 1\n\tALIGNB %s", "[BITS %s]", "MOV AX,%s*2", "DW %s/0"} {
+			for _, num := range hostileNumbers {
+				src := "\t" + fmt.Sprintf(tmpl, num) + "\n\tNOP\n"
+				if strings.HasPrefix(tmpl, "X EQU") || strings.HasPrefix(tmpl, "[") {
+					src = fmt.Sprintf(tmpl, num) + "\n\tNOP\n"
+				}
+				yield(CrashCase{Src: src, Kind: "numsweep"})
 			}
 		}
 		// (c) scaled inputs, in-process no-crash part
